@@ -3,6 +3,7 @@ import BlockCiphers.Proofs.Kuznyechik
 import BlockCiphers.Proofs.GenTables
 import BlockCiphers.Proofs.MagmaSpec
 import BlockCiphers.Proofs.BeltSpec
+import BlockCiphers.Proofs.KuznyechikNeonModels
 /-
 C07 — Kuznyechik, Magma/GOST 28147-89 and BelT conform to their standards
 GENERATED statement file (tools/gen_thm.py): every theorem below restates, verbatim, a theorem of a Proofs/ module
@@ -183,3 +184,22 @@ theorem C07.belt_decrypt_eq_spec (K : BitVec 256) (Y : BitVec 128) :
     decrypt (new K) Y = Spec.Belt.blockDec K Y :=
   _root_.BC.Belt.decrypt_eq_spec K Y
 end BC.Belt
+
+namespace BC.Models.KuznyechikNeon
+open BC BC.Kuznyechik
+/-- `NeonKuznyechik` = `Kuznyechik` of the registry, as values, for every key string -/
+theorem C07.neon_new_eq (k : Bytes) : kuznyechik.new k = Models.Kuznyechik.kuznyechik.new k :=
+  _root_.BC.Models.KuznyechikNeon.new_eq k
+end BC.Models.KuznyechikNeon
+
+namespace BC.Models.KuznyechikNeon
+open BC BC.Kuznyechik
+theorem C07.neon_newEnc_eq (k : Bytes) : kuznyechikEnc.new k = Models.Kuznyechik.kuznyechikEnc.new k :=
+  _root_.BC.Models.KuznyechikNeon.newEnc_eq k
+end BC.Models.KuznyechikNeon
+
+namespace BC.Models.KuznyechikNeon
+open BC BC.Kuznyechik
+theorem C07.neon_newDec_eq (k : Bytes) : kuznyechikDec.new k = Models.Kuznyechik.kuznyechikDec.new k :=
+  _root_.BC.Models.KuznyechikNeon.newDec_eq k
+end BC.Models.KuznyechikNeon
